@@ -41,7 +41,7 @@ def run(ck):
         elif "e%d" % i in impl_again and split_impl(impl_again["e%d" % i])[0] != head:
             ck.violation("two encryptions with identical (plaintext, key, modes, seed, T) produced different files", rep)
         else:
-            if c.n >= 16 and c.cm != 0 and not c.cls.startswith(("related-blocks", "constant-chunks")):
+            if c.n >= 16 and c.cm != 0 and not c.cls.startswith(("related-blocks", "constant-chunks", "aes-structured")):
                 # (plaintexts CONSTRUCTED from the cipher's own outputs can legitimately contain a block equal to its ciphertext block -
                 #  CBC: P0 = IV gives C0 = E(0), P1 = C0 gives C1 = E(0) = P1 - so the scan is for unrelated data only)
                 # structural reading of 'no untransformed plaintext' is the theorem; this scan is a test
